@@ -42,3 +42,20 @@ package agent
 //@ requires is(v, bpv7.EndpointID)
 //@ ensures result
 //@ ensures len(eids) == old(len(eids)) + 1 && eids[len(eids) - 1] == v.(bpv7.EndpointID)
+
+// ---- WebSocket agent messages: safety only (C04) ----
+
+// govc:func (*wamStatus).UnmarshalCbor property C04
+//@ requires r != nil
+
+// govc:func (*wamRegister).UnmarshalCbor property C04
+//@ requires r != nil
+
+// govc:func (*wamBundle).UnmarshalCbor property C04
+//@ requires r != nil
+
+// govc:func (*wamSyscallRequest).UnmarshalCbor property C04
+//@ requires r != nil
+
+// govc:func (*wamSyscallResponse).UnmarshalCbor property C04
+//@ requires r != nil
